@@ -105,6 +105,9 @@ W.contract(Contract('CFG.reverse', [('self', CFGT)], ret=CFGT, fresh_result=True
                                     ForAll([pr2], Implies(e.productions[pr2] > 0, Exists([pr], And(done[pr], rev_of(pr2, pr)))), patterns=[e.productions[pr2]]),
                                     ForAll([pr], Implies(done[pr], e.productions[mkprod(head(pr), Rev(body(pr)))] > 0), patterns=[done[pr]]))}))
 
+W.contract(Contract('CFG.__invert__', [('self', CFGT)], ret=CFGT, fresh_result=True, requires=lambda o: WF(o.self),          # ~cfg: delegation, same postcondition
+    ensures=W.contracts['CFG.reverse'].ensures))
+
 # ------------------------------------------------------------------ get_reachable_symbols
 S_ = Const('S_', Ob.sort())
 CReach = Function('CReach', SetProd.sort(), Ob.sort(), Ob.sort(), BoolSort())     # x occurs in a sentential form derivable from s
@@ -253,7 +256,7 @@ W.contract(Contract('CFG.remove_useless_symbols', [('self', CFGT)], ret=CFGT, fr
 W.ground_sorts = (Ob.sort(),)
 W.special = {}
 _P = 'pyformlang/cfg/cfg.py'
-TARGETS = {'CFG.reverse': (_P, 'CFG.reverse'), 'CFG.get_reachable_symbols': (_P, 'CFG.get_reachable_symbols'),
+TARGETS = {'CFG.reverse': (_P, 'CFG.reverse'), 'CFG.__invert__': (_P, 'CFG.__invert__'), 'CFG.get_reachable_symbols': (_P, 'CFG.get_reachable_symbols'),
            'CFG.get_unit_pairs': (_P, 'CFG.get_unit_pairs'), 'CFG.eliminate_unit_productions': (_P, 'CFG.eliminate_unit_productions'),
            'CFG.is_empty': (_P, 'CFG.is_empty'), 'CFG.remove_useless_symbols': (_P, 'CFG.remove_useless_symbols'), 'fn.get_productions_d': ('pyformlang/cfg/utils_cfg.py', 'fn.get_productions_d')}
 
